@@ -294,6 +294,20 @@ func twinFault(t []string) core.Result {
 	if skiplog && rec != 0 && logger != "snapshot" {
 		return ret("c15:skip-logging-recorded:"+logger, "exchange marked skip-logging was recorded by the %s logger", logger)
 	}
+	cause := ""
+	if e == 1 {
+		cause = "body-read-failed"
+	} else {
+		short := *a
+		if k <= len(a.Body) {
+			short.Body = a.Body[:k]
+		}
+		cause = errCause(logger, o1, o2, &short)
+	}
+	if r, bad := loggerErrorVerdict(logger, o1, o2, a, modErr, cause, impl); bad {
+		r.ModelOp = modelOp
+		return r
+	}
 	return core.Result{Impl: impl, ModelOp: modelOp}
 }
 
